@@ -23,7 +23,7 @@ CHECKS = {
              note='Trusted: z3/cvc5, kbmc string model (endswith, slicing, concatenation); CrossHair path exhaustion; the recording stubs.  Cores, progress display, gzip equivalence and real parsing are outside.',
              ref='3/C08'),
  'C09': dict(engine='X', technique='symbolic execution (CrossHair/z3) of the real get_result_item/classify with numpy.argsort replaced by its documented contract (unstable kinds: any sorting permutation, chosen symbolically; stable kinds: the stable order) + replay on the real numpy',
-             text='For 1..4 (quick) / 6 (thorough) references, every distance order type with ties, every tie order an unstable sort may return and every list length, CrossHair '
+             text='For 1..4 (quick) / 5 (thorough) references, every distance order type with ties, every tie order an unstable sort may return and every list length, CrossHair '
                   'confirms that the list is the (distance, reference order) prefix with exact distances and per-distance taxa and that its head is closest_match.  A contract-level '
                   'counterexample is reported only with an input that fails on the real numpy of this machine.',
              note='Trusted: CrossHair path exhaustion, the numpy contract stubs (argsort stability as documented, argmin first minimum).  CPU-dispatch / thread-count independence follows from the stable order and is not executed.',
